@@ -127,7 +127,7 @@ CLAIMED.update({
              "object and checking identity (`is`), FAILED values against the failure-free run, and the model's partial state.",
         design_ref="DESIGN.md section 5 C11",
         note="Exception identity itself is Python runtime behaviour (checked, not modelled: err ids); map-level propagation is covered by "
-             "C10; interrupt handlers are wrapped in RuntimeError by the implementation (known finding candidate, C14).",
+             "C10; interrupt handlers' exceptions are wrapped in RuntimeError by the implementation (known finding F-c, pinned by a repository test).",
         technique="Coq proof (characterisation of failing supersteps and of the nested executor) + fault enumeration over nodes",
     ),
     "C12": dict(
@@ -165,7 +165,7 @@ CLAIMED.update({
              "self-answering handlers, falsy answers, nested) through complete pause/resume histories.",
         design_ref="DESIGN.md section 5 C14",
         note="partial: 'resume == handler returned the response' for whole runs is decided per generated history by the oracle (the "
-             "executor-level statement is proved); interrupts whose upstream-fed input has a default are not generated (DESIGN F-f).",
+             "executor-level statement is proved); interrupts whose upstream-fed input has a default pause early and again (known finding F-f).",
         technique="Coq proof (interrupt executor / async isolation / nested pause path) + pause-resume history oracle",
     ),
     "C15": dict(
@@ -188,7 +188,7 @@ CLAIMED.update({
              "selected name) holding the state's value and never an ordering sentinel. Tied to /repo by runs over entry-point sets x "
              "graph/run-time selections x on_missing, including failed results; the active set is computed by the spec (reachability).",
         design_ref="DESIGN.md section 5 C16",
-        note="on_missing policies and nested exposure are checked differentially (model collect_selected), not proved.",
+        note="the on_missing policy is modelled (Engine.select_outputs) and proved to report exactly the selected names absent from the state (C16_missing_names, C16_on_missing); nested exposure is checked differentially.",
         technique="Coq proof (filter characterisation) + differential correspondence",
     ),
     "C17": dict(
